@@ -6,7 +6,7 @@ PROP = dict(
     id="C01",
     corr=["Model/FsmCorr.vo", "Model/C01Corr.vo", "Model/C03Corr.vo", "Model/C01Validator.vo", "Model/C01Decoder.vo", "Model/C20Corr.vo"],
     design_ref="DESIGN.md §6 C01",
-    technique="Coq: invoice-checked invariant + validate-before-pay ghost, carried by a ghost-threaded engine rule through all histories with crashes; reflective table check; step-level vm_compute correspondence against the real SwapService/FSM; monitor on observed effect traces",
+    technique="Coq: invoice-checked invariant + validate-before-pay ghost, carried by a ghost-threaded engine rule through all histories with crashes; reflective table check; step-level vm_compute correspondence against the real SwapService/FSM; monitor on observed effect traces; plus, on the real code: the validators of both chains on generated opening transactions, DecodePayreq of both Lightning adapters, and the RPC / electrum watchers' confirmation families (monitors Model/C01Validator.v, Model/C01Decoder.v, C20's)",
     level_text="Machine-checked for every state table passing a reflective check (decided on the four generated tables each run), every invoice decoder, every history the environment can produce (requests only create swaps, confirmation callbacks only for a watch registered in the current process, any environment answers, crashes after any effect + restarts from the last durable record): every RebalancePayment pays exactly the invoice of the peer's opening_tx_broadcasted message of the durable record, of a Bitcoin or protocol-7 Liquid swap, whose invoice has amount = claim amount*1000 (mod 2^64), final CLTV <= 504 / 0..29 and whose hash is the bound ClaimPaymentHash, and is preceded in the same action by ValidateTx(both pubkeys, that hash, negotiated on-chain amount, CSV 1008/10080, peer's blinding key, delivered OpeningTxHex) = true; every confirmation watch is for the announced txid/vout; every record persisted in a paying state satisfies the invoice invariant. Non-vacuity: an observed paying history satisfies the predicate, perturbed traces are rejected.",
     level_note="Trusted: Coq kernel; hand-written Gallina model of swap/actions.go and swap/fsm.go tied by step-level correspondence on generated + directed scenarios (incl. crashes around the payment); fakes for Lightning/wallet/watcher/validator: what ValidateTx checks on real transactions is C03/C08, watcher depth (3/2 confirmations, constants pinned here) is C20; that a payment happens only in a confirmation callback for a watch registered since the last restart, or in a restart that finds the paying state, is checked by the monitor on observed scenarios (the theorem covers it through the invariant, it is not a separate statement).",
     assumptions=[
